@@ -5,4 +5,5 @@ pub mod refcodec;
 pub mod report;
 pub mod rt;
 pub mod runner;
+pub mod sim;
 pub mod props;
